@@ -4,12 +4,13 @@ re-serialised variants compared by inventory and by a seeded trajectory digest.
 
 Inventory line formats (one item per line, whole inventory sorted):
   node <host> <type> <state> sud=<n> sdd=<n> dns=<ip|-> gw=<ip|->
-  nic <host> <num> <name|-> <ip|-> <mask|-> en=<0|1>
+  nic <host> <num> <name|-> <ip|-> <mask|-> wired=<0|1> en=<0|1>
   link <hostA> <portA> <hostB> <portB> <bw>
   route <host> <idx> <addr> <mask> <nexthop> <metric> ; defroute <host> <nexthop>
   acl <host> <aclname> <implicit> <slots>  ;  rule <host> <aclname> <pos> <ACT>,<proto>,<sip>,<swc>,<dip>,<dwc>,<sport>,<dport>
-  sw <host> <name> <svc|app> <state> n=<number of live instances of that name on the node>
-  opt <host> <name> <key> <value-token>           (only for option keys the file declares)
+  sw <host> <name> <svc|app> n=<number of live instances of that name on the node> st=<operating state> h=<actual health>
+     <key>=<value-token>…   (only for option keys the file declares; the value is read off the LIVE object through LIVE_OPTIONS:
+     the attribute the running software uses, the config field and a same-named attribute must all agree)
   user <host> <name> <password> <admin 0|1>
   folder <host> <folder> ; file <host> <folder> <file> <size|-> <type|->   (declared folders / files only; see files_extra)
   agent <ref> <type> <team|-> acts=<n> rews=<n> ; act <ref> <idx> <action> <options-token> ; rew <ref> <idx> <type> <weight> <options-token>
@@ -24,7 +25,7 @@ from typing import Any, Dict, List, Optional, Tuple
 
 from harness.lib import scen
 
-MODELLED_NODE_TYPES = {"computer", "server", "switch", "router", "firewall"}
+MODELLED_NODE_TYPES = {"computer", "server", "printer", "switch", "router", "firewall"}
 FW_ACLS = ["internal_inbound_acl", "internal_outbound_acl", "dmz_inbound_acl", "dmz_outbound_acl", "external_inbound_acl",
            "external_outbound_acl"]
 FW_PORTS = {"external_port": 1, "internal_port": 2, "dmz_port": 3}
@@ -113,7 +114,8 @@ def inventory(game, cfg: Dict) -> List[str]:
             ip = getattr(nic, "ip_address", None)
             mask = getattr(nic, "subnet_mask", None)
             pname = getattr(nic, "port_name", None)
-            out.append(f"nic {h} {num} {_o(pname)} {_o(ip)} {_o(mask)}")
+            wired = getattr(nic, "_connected_link", None) is not None
+            out.append(f"nic {h} {num} {_o(pname)} {_o(ip)} {_o(mask)} wired={1 if wired else 0} en={1 if nic.enabled else 0}")
         if len(node.network_interface) != len(node.network_interfaces):
             out.append(f"nic-maps-differ {h} {len(node.network_interface)} {len(node.network_interfaces)}")
         if isinstance(node, Router):
@@ -138,7 +140,8 @@ def inventory(game, cfg: Dict) -> List[str]:
             decl_sw[e["type"]] = e
         for name, sw in sm.software.items():
             kind = "app" if isinstance(sw, Application) else "svc"
-            out.append(f"sw {h} {name} {kind} n={live.get(name, 0)} {built_opts(sw, (decl_sw.get(name) or {}).get('options') or {})}".rstrip())
+            out.append(f"sw {h} {name} {kind} n={live.get(name, 0)} st={sw.operating_state.name} h={sw.health_state_actual.name} "
+                       f"{built_opts(sw, (decl_sw.get(name) or {}).get('options') or {})}".rstrip())
         for name in live:
             if name not in sm.software:
                 out.append(f"sw {h} {name} orphan n={live[name]}")
@@ -187,19 +190,71 @@ def _reward_type(comp) -> str:
     return "?"
 
 
+# Declared option -> where its EFFECT shows on the live object: the attribute the running software reads (written from
+# docs/source/simulation_components/system/**/*.rst and the classes' own use of the value). `cfg:` = the software reads the
+# option from its config object at the time of use. Every reader listed, the config field of the option's name and a live
+# attribute of the option's name (when they exist) must agree; they are what the file's value is compared with.
+def _attr(name):
+    return lambda sw: getattr(sw, name)
+
+
+def _cfg(name):
+    return lambda sw: getattr(sw.config, name)
+
+
+LIVE_OPTIONS: Dict[str, Dict[str, Any]] = {
+    "*": {"fixing_duration": _cfg("fixing_duration"), "criticality": _cfg("criticality"),
+          "listen_on_ports": lambda sw: sorted(int(p) for p in sw.listen_on_ports)},
+    "dns-server": {"domain_mapping": lambda sw: {str(k): str(v) for k, v in sw.dns_table.items()}},
+    "dns-client": {"dns_server": _attr("dns_server")},
+    "database-service": {"backup_server_ip": _attr("backup_server_ip"), "db_password": _attr("password")},
+    "ftp-server": {"server_password": _attr("server_password")},
+    "ntp-client": {"ntp_server_ip": _attr("ntp_server")},
+    "web-browser": {"target_url": _cfg("target_url")},
+    "database-client": {"db_server_ip": _attr("server_ip_address"), "server_password": _attr("server_password")},
+    "data-manipulation-bot": {"server_ip": _attr("server_ip_address")},
+    "ransomware-script": {"server_ip": _attr("server_ip_address")},
+    "dos-bot": {},
+    "c2-beacon": {"c2_server_ip_address": _attr("c2_remote_connection"), "keep_alive_frequency": _cfg("keep_alive_frequency"),
+                  "masquerade_protocol": _cfg("masquerade_protocol"), "masquerade_port": _cfg("masquerade_port")},
+    "c2-server": {"keep_alive_frequency": _cfg("keep_alive_frequency"), "masquerade_protocol": _cfg("masquerade_protocol"),
+                  "masquerade_port": _cfg("masquerade_port")},
+}
+NOT_IN_OPTS = ("type", "starting_health_state")  # the starting health is carried by the h= field of the sw line
+
+
+def live_readings(sw, k: str) -> Dict[str, str]:
+    """label -> token of every place where option `k` of the live software shows."""
+    out: Dict[str, str] = {}
+    rd = LIVE_OPTIONS.get(sw.name, {}).get(k) or LIVE_OPTIONS["*"].get(k)
+    try:
+        if rd is not None:
+            out["live"] = tok(rd(sw))
+        if k != "listen_on_ports":
+            if k in type(sw.config).model_fields:
+                out["config"] = tok(getattr(sw.config, k))
+            if k in type(sw).model_fields:
+                out["attr"] = tok(getattr(sw, k))
+    except Exception as e:  # a reader that raises is a difference, not a crash of the rig
+        out["raises"] = type(e).__name__
+    return out
+
+
 def built_opts(sw, declared_options: Dict) -> str:
-    """`k=<token of the BUILT value>` for every option key the file declares, keys sorted."""
+    """`k=<token of the BUILT value>` for every option key the file declares, keys sorted. Readings that disagree with each other
+    are all shown (`k=<live>!config:<v>`), which then differs from the single declared token."""
     parts = []
     for k in sorted(declared_options):
-        if k == "type":
+        if k in NOT_IN_OPTS:
             continue
-        if k == "listen_on_ports":
-            val = sorted(int(p) for p in sw.listen_on_ports)
-        elif hasattr(sw.config, k):
-            val = getattr(sw.config, k)
-        else:
-            val = "<no-such-config-field>"
-        parts.append(f"{k}={tok(val)}")
+        r = live_readings(sw, k)
+        if not r:
+            parts.append(f"{k}=<no-such-option-on-the-built-software>")
+            continue
+        vals = list(r.items())
+        first = vals[0][1]
+        rest = [f"{lab}:{v}" for lab, v in vals[1:] if v != first]
+        parts.append(f"{k}={first}" + "".join("!" + x for x in rest))
     return " ".join(parts)
 
 
@@ -221,6 +276,29 @@ def state_oracle(game) -> List[str]:
             want = ("RUNNING",) if on else ("STOPPED", "CLOSED")
             if st not in want:
                 bad.append(f"software-state {node.config.hostname} {name} {st} node_on={on}")
+    return bad
+
+
+def options_oracle(game, cfg: Dict) -> List[str]:
+    """The `game:` section (outside the Lean model): episode length, seed, the port / protocol whitelists in file order, thresholds;
+    and `simulation.network.airspace.frequency_max_capacity_mbps` where the file has it."""
+    from primaite.utils.validation.ip_protocol import PROTOCOL_LOOKUP
+    from primaite.utils.validation.port import PORT_LOOKUP
+    bad = []
+    g = cfg.get("game") or {}
+    o = game.options
+    if o.max_episode_length != int(g.get("max_episode_length", 256)):
+        bad.append(f"game max_episode_length built={o.max_episode_length} declared={g.get('max_episode_length', 256)}")
+    if o.seed != g.get("seed"):
+        bad.append(f"game seed built={o.seed} declared={g.get('seed')}")
+    want_ports = [PORT_LOOKUP[p] if isinstance(p, str) else int(p) for p in g.get("ports", [])]
+    if [int(p) for p in o.ports] != want_ports:
+        bad.append(f"game ports built={list(o.ports)} declared={want_ports}")
+    want_protos = [str(PROTOCOL_LOOKUP[p] if p in PROTOCOL_LOOKUP else p).lower() for p in g.get("protocols", [])]
+    if [str(p).lower() for p in o.protocols] != want_protos:
+        bad.append(f"game protocols built={list(o.protocols)} declared={want_protos}")
+    if "thresholds" in g and tok(o.thresholds) != tok(g["thresholds"]):
+        bad.append(f"game thresholds built={tok(o.thresholds)} declared={tok(g['thresholds'])}")
     return bad
 
 
@@ -313,21 +391,21 @@ def scenario_lines(cfg: Dict) -> List[str]:
             lines.append(f"nic {int(k)} {v['ip_address']} {v['subnet_mask']}")
         for kind, key in (("svc", "services"), ("app", "applications")):
             for e in n.get(key) or []:
-                declared = {k: v for k, v in (e.get("options") or {}).items() if k != "type"}
-                val = _validated(_software_schema(e["type"]), declared)
+                alld = {k: v for k, v in (e.get("options") or {}).items() if k != "type"}
+                val = _validated(_software_schema(e["type"]), alld)
+                declared = {k: v for k, v in alld.items() if k not in NOT_IN_OPTS}
                 opts = " ".join(f"{k}={tok(_opt_value(k, declared[k]) if k == 'listen_on_ports' else val[k])}" for k in sorted(declared))
-                lines.append(f"{kind} {e['type']} {opts}".rstrip())
+                hl = "-" if "starting_health_state" not in alld else tok(val["starting_health_state"])
+                lines.append(f"{kind} {e['type']} {hl} {1 if _init_starts(e['type']) else 0} {opts}".rstrip())
         for u in n.get("users") or []:
             lines.append(f"user {tok(u['username'])} {tok(u['password'])} {_o(None if 'is_admin' not in u else (1 if u['is_admin'] else 0))}")
         for fd in n.get("folders") or []:
             lines.append(f"folder {tok(fd['folder_name'])}")
             for f in fd.get("files") or []:
                 lines.append(f"file {tok(fd['folder_name'])} {tok(built_file_name(f))} {_o(f.get('size') or None)} {_o(None if 'type' not in f else f['type'].upper())}")
-    for ns in net.get("node_sets") or []:
-        if ns.get("type") != "office-lan":
-            raise Unmodelled(f"node set {ns.get('type')}")
-        lines.append(f"nodeset {tok(ns['lan_name'])} {ns['subnet_base']} {ns['pcs_ip_block_start']} {ns['num_pcs']} "
-                     f"{_o(None if 'include_router' not in ns else (1 if ns['include_router'] else 0))} {_o(ns.get('bandwidth'))}")
+    if net.get("node_sets"):
+        # the office-lan adder has its own Lean model (officeBuild) and its own rig family; it is not part of `build`
+        raise Unmodelled("node sets inside a scenario")
     for l in net.get("links") or []:
         lines.append(f"link {tok(l['endpoint_a_hostname'])} {l['endpoint_a_port']} {tok(l['endpoint_b_hostname'])} {l['endpoint_b_port']} "
                      f"{_o(l.get('bandwidth'))}")
@@ -347,6 +425,24 @@ def _software_schema(sw_type: str):
     from primaite.simulator.system.services.service import Service
     cls = Service._registry.get(sw_type.lower()) or gg.SERVICE_TYPES_MAPPING.get(sw_type) or Application._registry.get(sw_type)
     return None if cls is None else cls.ConfigSchema
+
+
+def _software_class(sw_type: str):
+    import primaite.game.game as gg
+    from primaite.simulator.system.applications.application import Application
+    from primaite.simulator.system.services.service import Service
+    return Service._registry.get(sw_type.lower()) or gg.SERVICE_TYPES_MAPPING.get(sw_type) or Application._registry.get(sw_type)
+
+
+def _init_starts(sw_type: str) -> bool:
+    """Does the class's own `__init__` end by starting / running the software? (an input of the model; no theorem depends on it)"""
+    import inspect
+    cls = _software_class(sw_type)
+    try:
+        src = inspect.getsource(cls.__init__)
+    except Exception:
+        return False
+    return "self.start()" in src or "self.run()" in src
 
 
 def _validated(schema, declared: Dict) -> Dict:
